@@ -11,6 +11,7 @@ import (
 	"strings"
 	"sync"
 	"sync/atomic"
+	"syscall"
 	"time"
 
 	"github.com/mimecast/dtail/internal/config"
@@ -68,6 +69,10 @@ func (l *vListener) Accept() (net.Conn, error) {
 	if !ok {
 		return nil, fmt.Errorf("listener closed")
 	}
+	if c == nil {
+		// the harness asked for a failing accept(2): out of file descriptors (temporary, not a timeout)
+		return nil, &net.OpError{Op: "accept", Net: "tcp", Addr: l.addr, Err: os.NewSyscallError("accept4", syscall.EMFILE)}
+	}
 	return c, nil
 }
 func (l *vListener) Close() error   { return nil }
@@ -87,10 +92,16 @@ type c14sParams struct {
 	Conns int
 	Max   int
 	Bad   int // index of a connection that fails authentication (-1 none)
+	// AcceptErr > 0: before socket number AcceptErr (1-based) the listener's Accept fails once with EMFILE
+	AcceptErr int
 }
 
 func (p c14sParams) String() string {
-	return fmt.Sprintf("connections=%d max=%d badauth=%d", p.Conns, p.Max, p.Bad)
+	s := fmt.Sprintf("connections=%d max=%d badauth=%d", p.Conns, p.Max, p.Bad)
+	if p.AcceptErr > 0 {
+		s += fmt.Sprintf(" accept-fails-with-EMFILE-before-socket=%d", p.AcceptErr)
+	}
+	return s
 }
 
 func c14sScenario(p c14sParams) *explore.Scenario {
@@ -184,10 +195,19 @@ func c14sScenario(p c14sParams) *explore.Scenario {
 					}
 					cc.Close()
 				}()
+				if p.AcceptErr == i+1 {
+					vl.ch.Send("failing-accept", nil)
+				}
 				vl.ch.Send("socket", sconn) // the real accept loop takes it from here
 			}
 			// let every connection goroutine finish: they all end by themselves because the clients close
 			vrt.Sleep("settle", 30*time.Second)
+			// sockets the accept loop never took (it stopped accepting): hang up, so that their clients do not wait
+			for vl.ch.Len("unclaimed") > 0 {
+				if sc := vl.ch.Recv("unclaimed"); sc != nil {
+					sc.Close()
+				}
+			}
 			clients.Wait()
 			cancel()
 			vl.ch.Close("close-listener")
@@ -198,6 +218,9 @@ func c14sScenario(p c14sParams) *explore.Scenario {
 			}
 			// "accepts a new one whenever fewer are open": a socket may be turned away at accept only if the
 			// reported count had reached MaxConnections at that moment
+			if len(countAtDecision) < p.Conns && viol == "" {
+				viol = fmt.Sprintf("the accept loop looked at %d of %d sockets only: it stopped accepting (after an accept error?) although the server is running", len(countAtDecision), p.Conns)
+			}
 			for k := 0; k < p.Conns && k < len(countAtDecision) && viol == ""; k++ {
 				if atomic.LoadInt32(&gotBanner[k]) == 0 && countAtDecision[k] < p.Max {
 					viol = fmt.Sprintf("socket %d was turned away at accept although the server reported only %d of %d connections open at that moment", k, countAtDecision[k], p.Max)
@@ -225,7 +248,7 @@ func init() {
 		ID:       "C14S",
 		ReportAs: "C14",
 		Level:    "model_checking",
-		Rule: "schedule exploration of the server's real connection accounting: the server's real accept loop runs on a listener whose Accept is a visible operation (the harness feeds it natively accepted sockets), with the real handleConnection per socket for 3-4 sockets with MaxConnections 1-2; each socket's SSH client is a native goroutine that " +
+		Rule: "schedule exploration of the server's real connection accounting: the server's real accept loop runs on a listener whose Accept is a visible operation (the harness feeds it natively accepted sockets), with the real handleConnection per socket for 3-4 sockets with MaxConnections 1-3, optionally with one accept(2) failing with EMFILE; each socket's SSH client is a native goroutine that " +
 			"hand-shakes (one with bad credentials in some scenarios) and closes; all schedules within 2 deviations of the server-side goroutines (mutex operations of the counter are scheduling points); invariant on every state: reported open connections <= MaxConnections and >= 0; at the end 0; a socket is turned away at accept only when the reported count had reached MaxConnections at that moment",
 		Assumptions: []string{
 			"x/crypto/ssh runs natively inside the controlled goroutines; every native blocking call completes without the help of another controlled goroutine because the client side is free running",
@@ -235,7 +258,7 @@ func init() {
 			return []*explore.Scenario{c14sScenario(c14sParams{Conns: 3, Max: 2, Bad: -1})}
 		},
 		Run: func(c *Ctx) {
-			ps := []c14sParams{{Conns: 3, Max: 2, Bad: -1}, {Conns: 3, Max: 1, Bad: 0}}
+			ps := []c14sParams{{Conns: 3, Max: 2, Bad: -1}, {Conns: 3, Max: 1, Bad: 0}, {Conns: 3, Max: 3, Bad: -1, AcceptErr: 2}, {Conns: 2, Max: 2, Bad: -1, AcceptErr: 1}}
 			d := 2
 			if c.Thorough() {
 				ps = append(ps, c14sParams{Conns: 4, Max: 2, Bad: 1}, c14sParams{Conns: 4, Max: 3, Bad: -1})
@@ -248,6 +271,8 @@ func init() {
 					switch {
 					case strings.Contains(msg, "counts"):
 						return "more-connections-counted-than-MaxConnections"
+					case strings.Contains(msg, "stopped accepting"):
+						return "accept-loop-stops-after-an-accept-error"
 					case strings.Contains(msg, "turned away"):
 						return "refused-although-slots-free"
 					case strings.Contains(msg, "still reports"):
